@@ -183,7 +183,20 @@ def all_close(pairs, labels=None, rel=None):
     if TWIN:
         return True, 'ok'       # the twin only witnesses that this point is reachable under the assumptions
     with NoTracing():
-        conj = z3.And(*[_zclose(a, b, 1e-6 if rel is None else rel) for a, b in pairs])
+        # fast path: pairs whose difference normalises to the zero polynomial are equal for every value (z3's simplifier is
+        # an equivalence-preserving rewriter; som = sum-of-monomials normal form) and need no solver query at all
+        todo = []
+        for (a, b) in pairs:
+            try:
+                dz = z3.simplify(zv(a) - zv(b), som=True, som_blowup=10 ** 7)
+                if z3.is_rational_value(dz) and dz.numerator_as_long() == 0:
+                    continue
+            except Exception:
+                pass
+            todo.append((a, b))
+        if not todo:
+            return True, 'ok'
+        conj = z3.And(*[_zclose(a, b, 1e-6 if rel is None else rel) for a, b in todo])
         sb = SymbolicBool(conj)
     if sb:
         return True, 'ok'
